@@ -1,6 +1,6 @@
 """C01 - assess is the joint log density; simulate samples exactly from it."""
 from ..common import Check
-from .. import gficheck
+from .. import gficheck, gfirecord
 
 QUICK = ["f2", "fn3", "fv", "fvf", "fr", "fs", "fc", "fa", "fd"]
 THOROUGH = QUICK + ["fvs", "fsc", "f3d", "cTF", "vf", "sc"]
@@ -18,4 +18,7 @@ def run(tier, argv):
         chk.cov.setdefault("replay", []).append({"variant": variant, **info})
     chk.cov["rule"] = ("every (program, argument, outcome of every sample site) behaviour of GFI.tla's DoSimulate for the corpus; "
                        "replayed through seed(gf.simulate) eagerly and under jax.jit; distinct by (program, arg, script)")
+    n = gfirecord.run_b(chk, {"simulate"}, ["f2", "fn3", "fv", "fvf", "fs", "fc", "fa", "fd"] if tier == "quick" else THOROUGH,
+                        200 if tier == "quick" else 3000, chi2=True)
+    chk.cov["recorded_events"] = n
     return chk.finish()
